@@ -157,7 +157,7 @@ def main(ctx):
     # data-driven subclasses: ObjectSM histories (depth 2 quick / 3 thorough) of the tsonis and hilbert families
     from props import c01
     dcases = []
-    for fam in ("tsonis", "hilbert", "spearman", "partialcorr", "mutualinfo", "havlin"):
+    for fam in ("tsonis", "hilbert", "spearman", "partialcorr", "mutualinfo", "havlin", "ctsonis"):
         for k, h in enumerate(c01.gen_histories(ctx, fam, 2 if ctx.tier == "quick" else 3)):
             dcases.append({"case": "d_%s_%d" % (fam, k), "family": fam, "hist": [list(m) for m in h]})
     drecs = ctx.run_cases("props.c09.run_data_case", dcases)
